@@ -236,8 +236,8 @@ def rule_list(ctx):
     ns = p.nested(lst_fn, "_new_stream")
     okp = any(isinstance(n, ast.Assign) and last_attr(n.targets[0]) == "path" and isinstance(n.value, ast.Name) and n.value.id == ns.args.args[1].arg for n in walk_no_nested(ns))
     ctx.ob("C09.LIST", ns, "each new listing records its own path (entries are joined to it)", okp, "a new listing does not record its own path", construct="list:path record")
-    cmds = [c for c in walk_no_nested(ns) if isinstance(c, ast.BinOp) and isinstance(c.left, ast.Constant) and str(c.left.value).strip() in ("MLSD", "LIST")]
-    ok = bool(cmds) and all(src(c.right) == "str(cls.path)" for c in cmds)
+    cmds = [c for c in walk_no_nested(ns) if isinstance(c, (ast.BinOp, ast.JoinedStr)) and (literal_prefix(p, c)[0] or "").strip() in ("MLSD", "LIST")]
+    ok = bool(cmds) and all(src(literal_prefix(p, c)[1]) == "str(cls.path)" for c in cmds)
     ctx.ob("C09.LIST", ns, "the listing command names the recorded path", ok, "the listing command does not name the recorded path", construct="list:command path")
     # users of the lister inside the client consume it eagerly (await self.list(...)) - a lazily abandoned lister leaves a data stream open and the control channel out of sync
     for fn in p.methods("Client").values():
@@ -317,7 +317,7 @@ def rule_mkdir(ctx):
            f"make_directory consults/updates client state `{src(cache[0]) if cache else ''}`: a cache keyed by the path as given goes stale when the working directory changes",
            construct="make_directory:state")
     cmds = [c for c in walk_no_nested(mk) if is_self_call(c, {"command"})]
-    ok = bool(cmds) and all(isinstance(c.args[0], ast.BinOp) and src(c.args[0].left) == "'MKD '" for c in cmds)
+    ok = bool(cmds) and all(literal_prefix(p, c.args[0], mk)[0] == "MKD " and literal_prefix(p, c.args[0], mk)[1] is not None for c in cmds)
     ctx.ob("C09.MKD", mk, "directories are created with MKD <path>", ok, "make_directory does not send MKD <path>", construct="make_directory:command")
 
 
